@@ -8,7 +8,7 @@ use noodles_bgzf as bgzf;
 use self::chunks::write_chunks;
 use super::write_metadata;
 use crate::{
-    binning_index::index::reference_sequence::{Bin, Metadata, index::BinnedIndex, parent_id},
+    binning_index::index::reference_sequence::{Bin, Metadata, index::BinnedIndex},
     io::writer::num::{write_i32_le, write_u32_le, write_u64_le},
 };
 
@@ -32,7 +32,9 @@ where
     write_i32_le(writer, n_bin)?;
 
     for (&id, bin) in bins {
-        let first_record_start_position = first_record_start_position(index, id);
+        // The index holds the offset of the first record that overlaps (or follows) the start of
+        // the bin, which is what is written as `loffset`.
+        let first_record_start_position = index.get(&id).copied().unwrap_or_default();
         write_bin(writer, id, first_record_start_position, bin)?;
     }
 
@@ -61,20 +63,4 @@ where
     write_chunks(writer, bin.chunks())?;
 
     Ok(())
-}
-
-fn first_record_start_position(index: &BinnedIndex, mut id: usize) -> bgzf::VirtualPosition {
-    let mut min_position = index.get(&id).copied().unwrap_or_default();
-
-    while let Some(pid) = parent_id(id)
-        && let Some(position) = index.get(&pid)
-    {
-        if *position < min_position {
-            min_position = *position;
-        }
-
-        id = pid;
-    }
-
-    min_position
 }
